@@ -535,3 +535,20 @@ def group_family(seed, maxlen=4, budget=8000):
             galpha_trim(d, budget)
             out.append(d)
     return out
+
+
+# ---------------------------------------------------------------- ambiguous short clusters (C10, C20)
+def amb_family(seed, n, maxlen=2, budget=10**9):
+    """a short letter that is a flag at one level and an argument at another: multi-letter items
+    containing it cannot be tokenised"""
+    rnd = random.Random(seed)
+    out = []
+    while len(out) < n:
+        inner = level([ar("c0", rnd.choice(["opt", "one"]), "str", "-a"), sw("c1", "-c")], NOTAIL)
+        top = level([sw("t0", "-a"), sw("t1", "-b")] + ([ar("t2", "opt", "str", "-o")] if len(out) % 2 else []),
+                    cmdtail([cmd("one", inner)], optional=bool(len(out) % 3)), version=bool(len(out) % 2))
+        d = mkdef(f"amb{seed}_{len(out)}", top, maxlen=maxlen, extras=("help", "unk") if len(out) % 2 else ("help", "dd"),
+                  spells=("sep", "glued") if len(out) % 2 else ("eq", "glued"), words=("1",), clusters=True)
+        trim_to_budget(d, budget)
+        out.append(d)
+    return out
